@@ -278,11 +278,15 @@ pub fn oracle_691(a: &Args, out: &Args) -> Option<(&'static str, String)> {
 pub fn generate(rng: &mut Rng, thorough: bool, which: &str) -> Vec<Case> {
     let mut cs = vec![];
     if which == "trace" {
-        for sub in ["pace", "streams", "foreign", "unknown_uni"] {
+        for sub in ["pace", "streams", "foreign", "unknown_uni", "stall"] {
             let mut r2 = Rng::new(rng.next());
             for c in super::streams::generate(&mut r2, thorough, sub) {
                 // the slow single-stream cut matrix adds nothing to the hand-off trace: keep a third
                 if c.label.contains("single-stream-cut") && r2.below(3) != 0 {
+                    continue;
+                }
+                // the seconds-long stalls are the business of the suites "stall" and "streams"
+                if c.label.contains("long-stall") || c.label.contains("very-slow") || c.label.contains("unread-then-healthy") {
                     continue;
                 }
                 cs.push(Case::new(681, c.args, &format!("{}:{}", sub, c.label)));
